@@ -496,6 +496,18 @@ func (s *Sim) userActions() []Action {
 			add("user.delete-eds "+def.Key(), func() { s.Store.Remove(objKey{KEDS, def.NS, def.Name}) })
 		}
 	}
+	if cfg.ERSTouch {
+		for _, r := range s.Store.ERSs() {
+			r := r
+			add("user.touch-ers "+r.Namespace+"/"+r.Name, func() {
+				if r.Annotations == nil {
+					r.Annotations = map[string]string{}
+				}
+				r.Annotations["touched"] = fmt.Sprint(s.step)
+				s.Store.ForceUpdate(r)
+			})
+		}
+	}
 	if cfg.SettingEdits {
 		have := map[string]*edsv1.ExtendedDaemonsetSetting{}
 		for _, st := range s.Store.Settings() {
